@@ -154,6 +154,14 @@ def strtoulDigits (b : Buf) (i : Nat) (acc : Nat) : M (Nat × Nat) :=
 termination_by b.size - i
 decreasing_by have := Buf.lt_of_get? h; omega
 
+/-- The value `strtoul` returns for `-v` (unsigned negation modulo 2^64, ERANGE when `v` itself does not fit) as seen by the
+caller's `> INT_MAX` test; same as `Model.strtoulNeg`. -/
+def strtoulNeg (v : Nat) : Option Nat :=
+  if v == 0 then some 0
+  else if v > 18446744073709551615 then none
+  else if 18446744073709551616 - v > 2147483647 then none
+  else some (18446744073709551616 - v)
+
 /-- `val = strtoul(&b[i], &end, 10)` followed by the caller's `val > INT_MAX` test: `none` when it is, and `end`
 (`= i` when there are no digits). -/
 def strtoul (b : Buf) (i : Nat) : M (Option Nat × Nat) :=
@@ -169,7 +177,7 @@ def strtoul (b : Buf) (i : Nat) : M (Option Nat × Nat) :=
       | .error e => .error e
       | .ok (v, e) =>
         if e == k then .ok (some 0, i)                       -- no conversion: end = nptr
-        else if neg then .ok (if v == 0 then some 0 else none, e)
+        else if neg then .ok (strtoulNeg v, e)
         else if v > 2147483647 then .ok (none, e) else .ok (some v, e)
 
 /-- `isbackref(&b[i], &br)`: `.inl (len, mi, si)`, `.inr false` = 0, `.inr true` = -1. -/
